@@ -24,7 +24,9 @@ EXPLANATION = (
     "update_recursively(d, str_to_dict(key, ...)); (f) the function format_context returns changes nothing it captured from the "
     "enclosing call; (g) the presence of an optional value/default that is also used as data is decided by the module's private "
     "sentinel, never by `is None` or truthiness (None is a context value); (h) no one-argument .get() lookup decides presence by "
-    "comparing the value with None, and UpdateContext deep-copies the item it inserts before its first store into the value's context.  Does not decide agreement of the three notations on values.")
+    "comparing the value with None, and UpdateContext deep-copies the item it inserts before its first store into the value's context.  (i) Every iteration of the descent loop over the intermediate keys in contains and get_recursively either returns/raises or "
+    "rebinds the descent variable to its item under that key: no path leaves the loop early or skips a key, so the string, "
+    "list and dictionary notations cannot disagree on how deep a path reaches.  Does not decide agreement of the three notations on values.")
 RULES = {
     "C08-a": "GUARD: dictionary operations on values reached by descending into a context are dominated by isinstance(., dict)",
     "C08-b": "GUARD: [-1]/[0] of a key list is dominated by a non-emptiness test or a constructor check",
@@ -33,6 +35,8 @@ RULES = {
     "C08-e": "format_update_with formats first and updates d only through update_recursively(d, str_to_dict(...))",
     "C08-f": "STATELESS formatter: the function format_context returns mutates nothing it captured from the enclosing call",
     "C08-g": "SENTINEL: absence of an optional context value is decided by a private sentinel, never by None/falsiness (None is a value)",
+    "C08-i": "ONE KEY PER STEP: the descent loops of contains and get_recursively either leave the function or go exactly one "
+             "level down for every intermediate key (no break/continue that skips the remaining keys)",
     "C08-h": "presence of a key is decided with `in` (or KeyError), never by comparing a looked-up value with None; UpdateContext "
              "copies the item it will insert before it creates or overwrites anything on the way to the target",
 }
@@ -782,7 +786,41 @@ def check_lookup_and_snapshot(ctx):
     ctx.instances_floor("C08-h/snapshot", n_paths, 2, "paths of UpdateContext.__call__ that copy and store")
 
 
+def check_one_key_per_step(ctx):
+    """contains(d, "a.b.c.x") and get_recursively(d, "a.b.c.x") walk the same intermediate keys a, b, c.  When the walk stops early
+    (`break` on a scalar) the remaining keys are never looked at and the last part is compared with whatever was reached:
+    contains then answers True for paths get_recursively rejects."""
+    n = 0
+    for qual in ("contains", "get_recursively"):
+        fn = ctx.tree.func(FN, qual)
+        loops = [l for l in fn.body if isinstance(l, ast.For) and isinstance(l.iter, ast.Subscript) and isinstance(l.iter.slice, ast.Slice)
+                 and l.iter.slice.lower is None and A.int_const(l.iter.slice.upper) == -1 and isinstance(l.target, ast.Name)]
+        if not ctx.require(len(loops) == 1, "C08-i", fn, "%s: the loop over the intermediate keys (<keys>[:-1]) was not found" % qual):
+            continue
+        loop = loops[0]
+        key = loop.target.id
+        ctx.check("C08-i", not loop.orelse, loop, "%s: the descent loop has an else clause" % qual, detail="%s: plain descent loop" % qual,
+                  construct="loop-else:%s" % qual)
+        for p in P.loop_body_paths(loop):
+            n += 1
+            if p.end in ("return", "raise"):
+                ctx.ok("C08-i", loop, "%s: [%s] leaves the function" % (qual, p.describe(3)))
+                continue
+            desc = [e[1] for e in p.ev if e[0] == "stmt" and isinstance(e[1], ast.Assign) and len(e[1].targets) == 1
+                    and isinstance(e[1].targets[0], ast.Name) and isinstance(e[1].value, ast.Subscript)
+                    and A.src(e[1].value.value) == e[1].targets[0].id and A.src(e[1].value.slice) == key]
+            ok = p.end in ("fall", "continue") and len(desc) == 1
+            ctx.check("C08-i", ok, loop, "%s: an iteration of the descent loop %s on the path [%s]: the intermediate keys that follow are "
+                      "not looked up (or this one is skipped), so a path that runs through a scalar -- contains(d, 'a.b.x.1') with "
+                      "d['a']['b'] == 1 -- is judged by its last part alone, and contains disagrees with get_recursively" % (
+                          qual, "ends with `%s`" % p.end if p.end not in ("fall", "continue") else "does not go one level down (`v = v[%s]`)" % key,
+                          p.describe(4)),
+                      detail="%s: [%s] descends one level" % (qual, p.describe(3)), construct="descent-step:%s" % qual, path=p)
+    ctx.instances_floor("C08-i", n, 5, "paths through the descent loops")
+
+
 def check(ctx):
+    check_one_key_per_step(ctx)
     check_lookup_and_snapshot(ctx)
     check_formatter_stateless(ctx)
     check_sentinel(ctx)
@@ -795,6 +833,10 @@ def check(ctx):
 
 
 VARIANTS = [
+    M("contains-breaks-at-scalar", "lena/context/functions.py", "        if not isinstance(subdict, dict) or key not in subdict:\n            return False\n",
+      "        if not isinstance(subdict, dict):\n            break\n        if key not in subdict:\n            return False\n", ["C08-i"]),
+    M("get-recursively-skips-missing-level", "lena/context/functions.py", "        if key in d and isinstance(d.get(key), dict):\n            d = d[key]\n        elif has_default:",
+      "        if key in d and isinstance(d.get(key), dict):\n            d = d[key]\n        elif key not in d and len(keys) > 2:\n            continue\n        elif has_default:", ["C08-i"]),
     M("lookup-none-is-missing", "lena/context/functions.py", "    if keys[-1] in d:\n        return d[keys[-1]]", "    val = d.get(keys[-1])\n    if val is not None:\n        return val", ["C08-h"]),
     M("update-copied-late", "lena/context/update_context.py", "        else:\n            update = copy.deepcopy(self._update)", "        else:\n            update = self._update", []),
     M("formatter-shared-values", "lena/context/functions.py", "    def _format_context(context):\n        new_args = []\n        for arg in args:\n            # LenaKeyError may be raised\n            new_args.append(lena.context.get_recursively(context, arg))\n        # other exceptions, like ValueError\n        # (for bad string formatting) may be raised.\n        s = format_str.format(*new_args)\n        return s", "    values = []\n    def _format_context(context):\n        for arg in args:\n            values.append(lena.context.get_recursively(context, arg))\n        s = format_str.format(*values)\n        del values[:]\n        return s", ["C08-f"]),
